@@ -12,13 +12,23 @@ def nontrivial(req, obs):
     return False
 
 
+def classify_race(text):
+    # known finding: messageTransformSubscriberDecorator.Subscribe does subscribeWg.Add(1) while a concurrent Close is in
+    # subscribeWg.Wait() (WaitGroup misuse: Add from zero concurrent with Wait) - reported by the race detector
+    if "messageTransformSubscriberDecorator).Close" in text and "messageTransformSubscriberDecorator).Subscribe" in text:
+        return "decorator-subscribe-races-close"
+    return None
+
+
 PROP = {
+    "classify_race": classify_race,
     "id": "C07",
     "lean_targets": ["WmModel.Props.C07Term", "WmModel.Props.C05Reg", 'WmModel.Props.C07'],
     "audit_module": "Audit.C07",
     "theorems": ["Wm.GcSub.internal_steps_bounded", "Wm.GcSub.cur_unsettled_at_sendSel", "Wm.GcReg.registry_never_panics", "Wm.GcReg.publish_after_close_errs", "Wm.GcReg.subscribe_after_close_errs", "Wm.GcReg.writer_unique", 'Wm.GcSub.never_panics', 'Wm.GcSub.close_flags_consistent', 'Wm.GcSub.holder_can_leave_when_closing', 'Wm.GcSub.close_progress', 'Wm.GcSub.outchan_closed_at_most_once', 'Wm.GcSub.closed_is_final'],
     "tie_theorems": [],
     "harness": "c07",
+    "harness_timeout_s": {"quick": 480, "thorough": 2400},
     "race": True,
     "driver": "drv_c07",
     "nontrivial": nontrivial,
